@@ -162,11 +162,11 @@ CONTRACTS.update({
         loops=[
             {"invariant": [
                 "all((n in activated) == node_activated(graph, state, n, END) for n in _seq[:_i])",
-                "forall_keys(lambda n: n not in activated or n in _seq[:_i], activated)",
+                "all(n in _seq[:_i] for n in activated)",
             ]},
             {"invariant": [
                 "all((n in activated) == node_activated(graph, state, n, END) for n in _seq0[:_i0])",
-                "forall_keys(lambda n: n not in activated or n in _seq0[:_i0], activated)",
+                "all(n in _seq0[:_i0] for n in activated)",
                 "not any(gate_opens(graph, state, g, node_name, END) for g in _seq[:_i])",
             ]},
         ],
@@ -297,8 +297,8 @@ CONTRACTS.update({
         params={"ready": SEQ(NODE), "graph": GRAPH},
         returns=SEQ(NODE),
         ensures=[
-            "all(n in ready and not is_deferred(ready, n) for n in result)",
-            "all(is_deferred(ready, n) or n in result for n in ready)",
+            "all(any(m is n for m in ready) and not is_deferred(ready, n) for n in result)",
+            "all(is_deferred(ready, n) or any(m is n for m in result) for n in ready)",
         ],
         modifies=[],
         loops=[
@@ -323,12 +323,18 @@ CONTRACTS.update({
             ]},
         ],
         requires=["all(ready[i].name != ready[j].name for i in range(len(ready)) for j in range(len(ready)) if i != j)"],
-        mustfail="all(n in result for n in ready)",
+        mustfail="all(any(m is n for m in result) for n in ready)",
     ),
 })
 
-READY_P = ("in_scope(n, active_nodes) and node_activated(graph, state, n.name, END) and all_avail(graph, state, n) "
-           "and wf_ok(state, n) and needs(graph, state, n)")
+# Readiness, stated on the graph's OWN node object of that name (an entry-state object for the verifier: reads through
+# the lists built inside the function then simplify); `graph._nodes[n.name] is n` for every returned node is a clause of
+# its own, so the conjunction says the same as the statement on n itself.
+NN = "graph._nodes[n.name]"
+READY_P = ("in_scope(n, active_nodes) and node_activated(graph, state, n.name, END) and all_avail(graph, state, " + NN + ") "
+           "and wf_ok(state, " + NN + ") and needs(graph, state, " + NN + ")")
+OWN = "all(n.name in graph._nodes and graph._nodes[n.name] is n for n in {})"
+DISTINCT = "all({0}[i].name != {0}[j].name for i in range(len({0})) for j in range(len({0})) if i != j)"
 
 CONTRACTS.update({
     F + "get_ready_nodes": dict(
@@ -338,8 +344,12 @@ CONTRACTS.update({
         requires=["nodes_keyed_by_name(graph)", "gates_wellformed(graph, END)"],
         imports={"END": "hypergraph.nodes.gate"},
         ensures=CLEAR_POST + [
+            # the returned nodes are nodes of this graph, each at most once
+            OWN.format("result"),
             # every returned node is in scope, activated by the (cleared) decisions, has its inputs, is ordered and needs a run
             "all(" + READY_P + " for n in result)",
+            "all(in_scope(n, active_nodes) for n in result)", "all(node_activated(graph, state, n.name, END) for n in result)",
+            "all(all_avail(graph, state, " + NN + ") for n in result)", "all(wf_ok(state, " + NN + ") for n in result)", "all(needs(graph, state, " + NN + ") for n in result)",
             # P2: when a gate and its targets are runnable together the gate decides first
             "all(not is_gate(g) or all(t is END or t == g.name or not any(m.name == t for m in result) for t in g.targets) for g in result)",
             # C17: a waiter never starts in the same step as a producer of an awaited name
@@ -347,14 +357,18 @@ CONTRACTS.update({
         ],
         modifies=["state.routing_decisions"],
         loops=[
-            {"invariant": ["all(" + READY_P.replace("node_activated(graph, state, n.name, END)", "n.name in activated_nodes") + " for n in ready)",
-                           "all(n.name in graph._nodes and graph._nodes[n.name] is n for n in ready)",
-                           "all(any(m is n for m in _seq[:_i]) for n in ready)"]},
-            {"invariant": ["all(not is_gate(g) or g.name not in _seq[:_i] or targets_blocked(g, blocked_targets, END) for g in ready)"]},
-            {"invariant": ["all(not is_gate(g) or g.name not in _seq1[:_i1] or targets_blocked(g, blocked_targets, END) for g in ready)",
+            {"modifies": ["ready"],
+             "invariant": [OWN.format("ready"),
+                           "all(" + READY_P.replace("node_activated(graph, state, n.name, END)", "n.name in activated_nodes") + " for n in ready)",
+                           "all(n.name in _keys[:_i] for n in ready)",
+                           DISTINCT.format("ready")]},
+            {"modifies": ["blocked_targets"],
+             "invariant": ["all(not is_gate(g) or g.name not in _seq[:_i] or targets_blocked(g, blocked_targets, END) for g in ready)"]},
+            {"modifies": ["blocked_targets"],
+             "invariant": ["all(not is_gate(g) or g.name not in _seq1[:_i1] or targets_blocked(g, blocked_targets, END) for g in ready)",
                            "all(t is END or t == gate_name or t in blocked_targets for t in _seq[:_i])"]},
         ],
-        mustfail="all(" + READY_P.replace(" and wf_ok(state, n)", "") + " and not n.wait_for for n in result)",
+        mustfail="all(" + READY_P.replace(" and wf_ok(state, " + NN + ")", "") + " and not n.wait_for for n in result)",
     ),
 })
 
